@@ -32,6 +32,59 @@ def _cells_from_real():
     return cells
 
 
+def cell_outcomes(op, stys):
+    """the distinct outcomes of one cell over all provenances, in the state this process is in"""
+    from ..real.env import reset_globals
+    fns = dict(t1_scalar.BINOPS + t1_scalar.METHODS2 + t1_scalar.UNARY)
+    fns["ifElse"] = lambda x, y, z: x.if_else(y, z)
+    distinct = []
+    for prov in t1_scalar.PROVENANCES:
+        reset_globals()
+        from nada_dsl import Party
+        party = Party("p")
+        if op == "random":
+            r = t1_scalar.outcome(lambda: t1_scalar.CLASSES[stys[0]].random())
+        elif prov == "fnparam":
+            r = t1_scalar.with_params(stys, lambda *ps: t1_scalar.outcome(lambda: fns[op](*ps)))
+        else:
+            ops = t1_scalar.build_all(stys, prov, party)
+            r = t1_scalar.outcome(lambda: fns[op](*ops))
+        if r is None or r[0] == "valueerror":
+            continue
+        r = json.loads(json.dumps(t1_scalar.norm(r), default=str))
+        if r not in distinct:
+            distinct.append(r)
+    reset_globals()
+    return distinct
+
+
+def history_dependence(res, keys):
+    """The table extracted for the Lean side and the one computed here disagree on these cells although both were read off
+    the same classes: the outcome of a cell then depends on what was evaluated before it.  Each cell is evaluated alone in a
+    new interpreter and again in this process (after the whole table): a difference is a failing input."""
+    import os
+    import subprocess
+    import sys
+    found = 0
+    for op, names in sorted(keys)[:12]:
+        stys = [NAME2STY[n] for n in names]
+        code = f"import json; from nv.props import c02; print(json.dumps(c02.cell_outcomes({op!r}, {stys!r})))"
+        env = dict(os.environ, PYTHONPATH=os.pathsep.join([os.path.join(core.VERIF, "harness"), core.REPO]), PYTHONDONTWRITEBYTECODE="1")
+        p = subprocess.run([sys.executable, "-c", code], env=env, capture_output=True, text=True, timeout=300)
+        try:
+            alone = json.loads(p.stdout.strip().split("\n")[-1])
+        except ValueError:
+            continue
+        here = cell_outcomes(op, stys)
+        if alone != here:
+            found += 1
+            res.violation({"property": "C02", "kind": "history", "op": op, "args": [list(x) for x in stys], "arg_classes": list(names),
+                           "alone": alone, "after_the_table": here},
+                          f"{op}({', '.join(names)}): evaluated alone in a new interpreter the outcomes are {alone}, after the other cells of the "
+                          f"table were evaluated in the same process they are {here}: the verdict depends on history, not on the operand types"[:500])
+    return found
+
+
 def run(res, tier):
     # 1. the Lean definition evaluated on the regenerated table (names the failing cells)
     ans = core.driver([{"k": "c02cells"}])[0]
@@ -54,8 +107,11 @@ def run(res, tier):
              "replay": "./check C02 --replay <this file>"},
             f"{op}({', '.join(key[1])}): {why}")
     if lean_fail != set(py_fail):
-        # the two definitions of the property disagree: machinery defect, not a verdict
-        raise core.Infra(f"Lean cellOK and its Python mirror disagree: {sorted(lean_fail ^ set(py_fail))[:5]}")
+        # the two evaluations of the property disagree.  Both read the same classes, in different processes and orders: look
+        # for a cell whose outcome depends on what ran before it; if there is none the obligation is reported as broken
+        diff = lean_fail ^ set(py_fail)
+        if not history_dependence(res, diff):
+            res.broken.append({"decl": "T1 table (Lean cellOK) vs Python mirror of the rules", "msg": f"disagree on {sorted(diff)[:5]}"})
     res.coverage.update({
         "evaluations": len(cells) * len(t1_scalar.PROVENANCES),
         "distinct_nontrivial": accepted,
@@ -75,6 +131,19 @@ def run(res, tier):
 def replay(obj):
     from ..real.env import reset_globals
     op, stys = obj["op"], [tuple(a) for a in obj["args"]]
+    if obj.get("kind") == "history":
+        class _R:
+            n = 0
+
+            def violation(self, o, text):
+                self.n += 1
+                print(text)
+        _cells_from_real()
+        r = _R()
+        history_dependence(r, {(op, tuple(obj["arg_classes"]))})
+        if r.n:
+            print("VIOLATION property=C02 replay=(replayed)")
+        return 1 if r.n else 0
     fns = dict(t1_scalar.BINOPS + t1_scalar.METHODS2 + t1_scalar.UNARY)
     fns["ifElse"] = lambda x, y, z: x.if_else(y, z)
     results = []
